@@ -15,6 +15,33 @@ from .. import inject
 FONT_NAMES = ("ttFont", "font", "otFont")
 
 
+
+def _inline_locals(fn, expr):
+    """``expr`` with every plain local that is assigned exactly once in ``fn`` replaced by its defining expression
+    (one level is enough for `head = self.tables["head"]; ... head.offset + 8`)."""
+    defs = {}
+    for n in walk_no_nested(fn):
+        if isinstance(n, ast.Assign) and len(n.targets) == 1 and isinstance(n.targets[0], ast.Name):
+            defs.setdefault(n.targets[0].id, []).append(n.value)
+
+    class T(ast.NodeTransformer):
+        def visit_Name(self, n):
+            v = defs.get(n.id)
+            if isinstance(n.ctx, ast.Load) and v and len(v) == 1:
+                return v[0]
+            return n
+
+    import copy
+
+    return T().visit(copy.deepcopy(expr))
+
+
+def _head_patch_offset(fn, want):
+    seeks = [c.args[0] for c in calls_in(fn) if last_attr(c) == "seek" and c.args]
+    texts = [norm(_inline_locals(fn, e)) for e in seeks]
+    return texts, texts == [f"self.tables['head'].offset + {want}"]
+
+
 def _table_ref(e, cls, repo):
     """if expression e denotes another table of the font (ttFont["U"], ttFont.get("U"), ttFont.get(self.headerTag)) return its tag"""
     if isinstance(e, ast.Subscript) and isinstance(e.value, ast.Name) and e.value.id in FONT_NAMES:
@@ -184,8 +211,8 @@ def container_constants(ctx, repo):
     ctx.ob("CONST", hm.rel + ":<module>", f"head.checkSumAdjustment at bytes {off}", off == (8, 12))
     ctx.ob("CONST", hm.rel + ":<module>", f"head.fontRevision at bytes {hf.offsets.get('fontRevision')}", hf.offsets.get("fontRevision") == (4, 8))
     wm = m.func("SFNTWriter.writeMasterChecksum")
-    seek = [norm(c.args[0]) for c in calls_in(wm.node) if last_attr(c) == "seek"]
-    ctx.ob("CONST", wm.where, f"checksum adjustment written at {seek}", seek == ["self.tables['head'].offset + 8"], "" if seek == ["self.tables['head'].offset + 8"] else "checksum adjustment written at the wrong offset inside head")
+    seek, ok = _head_patch_offset(wm.node, off[0] if off else 8)
+    ctx.ob("CONST", wm.where, f"checksum adjustment written at {seek}", ok, "" if ok else "checksum adjustment written at the wrong offset inside head")
     # head checksum idiom data[:8] + 0 + data[12:]
     n_idiom = 0
     for rel in ("ttLib/sfnt.py", "ttLib/woff2.py", "ttLib/ttFont.py"):
@@ -325,8 +352,8 @@ def checksum_twins(ctx, repo):
     ok = len(fa) == len(fb) and not diff
     ctx.ob("F22-hv", b.where, f"WOFF2Writer._calcMasterChecksum == SFNTWriter._calcMasterChecksum (WOFF branch inlined): {len(fb)} statements", ok, "" if ok else f"the two routines differ: {diff[:1] or (len(fa), len(fb))}")
     w = repo.mod("ttLib/woff2.py").func("WOFF2Writer.writeMasterChecksum")
-    seek = [norm(c.args[0]) for c in calls_in(w.node) if last_attr(c) == "seek"]
-    ctx.ob("F22-hv", w.where, f"WOFF2 checksum adjustment written at {seek}", seek == ["self.tables['head'].offset + 8"])
+    seek, ok = _head_patch_offset(w.node, 8)
+    ctx.ob("F22-hv", w.where, f"WOFF2 checksum adjustment written at {seek}", ok)
     c = repo.mod("ttLib/woff2.py").func("WOFF2Writer._calcSFNTChecksumsLengthsAndOffsets")
     txt = norm(c.node)
     ok = "offset = sfntDirectorySize + sfntDirectoryEntrySize * len(self.tables)" in txt and "offset += entry.origLength + 3 & ~3" in txt and "calcChecksum(data[:8] + b'\\x00\\x00\\x00\\x00' + data[12:])" in txt
